@@ -58,6 +58,7 @@ type memConn struct {
 	in    *stream // bytes the owner of this end reads
 	out   *stream // bytes the owner of this end writes
 	chunk int     // >0: at most chunk bytes per Read
+	eof   bool    // the Read that hands out the last buffered byte returns (n>0, io.EOF), as io.Reader permits
 }
 
 func (m *memConn) Read(p []byte) (int, error) {
@@ -79,6 +80,9 @@ func (m *memConn) Read(p []byte) (int, error) {
 	}
 	copy(p[:n], m.in.buf[m.in.pos:])
 	m.in.pos += n
+	if m.eof && n == rest {
+		return n, io.EOF
+	}
 	return n, nil
 }
 
